@@ -118,6 +118,9 @@ def gen_history(seed):
         dec = {'name': dname, 'parameters': (
             {'max_bp_iter': rng.choice([5, 10]), 'osd_order': 0}
             if dname.startswith('Belief') else {})}
+        if dname == 'MatchingDecoder' and rng.random() < 0.3:
+            # a partial decoder: does not always return to the codespace
+            dec['parameters'] = {'error_type': rng.choice(['X', 'Z'])}
         sims.append({'code': ci, 'noise': ni, 'decoder': dec,
                      'rate': rng.choice(RATES),
                      'rng_seed': (rng.randrange(1 << 32)
@@ -128,9 +131,15 @@ def gen_history(seed):
         if r < 0.6:
             ops.append({'op': 'run', 'sim': rng.randrange(len(sims)),
                         'k': rng.choice([0, 1, 1, 2, 3, 5, 7])})
-        elif r < 0.72:
+        elif r < 0.66:
             ops.append({'op': 'get_results',
                         'sim': rng.randrange(len(sims))})
+        elif r < 0.72:
+            # what a resumed batch does: a new process builds the simulation
+            # again and loads the stored results into it
+            ops.append({'op': 'reload', 'sim': rng.randrange(len(sims)),
+                        'new_seed': (rng.randrange(1 << 32)
+                                     if rng.random() < 0.7 else None)})
         elif r < 0.8:
             ops.append({'op': 'results', 'sim': rng.randrange(len(sims))})
         elif r < 0.88:
@@ -153,6 +162,7 @@ class HistoryExec:
         self.cur = None          # (sim index, list of shots of this op)
         self.n_checked = 0
         self.states = set()
+        self.reloaded = set()
 
     def violate(self, cls, detail):
         self.violations.append({'class': cls, 'detail': detail})
@@ -277,6 +287,20 @@ class HistoryExec:
                     i = op['sim']
                     self.check_accounting(i, self.objs[i], totals[i],
                                           recorded[i])
+                elif kind == 'reload':
+                    i = op['sim']
+                    try:
+                        self.reload(i, op)
+                    except Exception as e:
+                        self.violate('reload_raised', {
+                            'exc': type(e).__name__, 'msg': str(e)[:200]})
+                        break
+                    self.reloaded.add(i)
+                    sim.probe('simulation_reloaded_from_saved_results')
+                    self.check_accounting(i, self.objs[i], totals[i],
+                                          recorded[i])
+                    if not self.violations:
+                        self.check_get_results(i, self.objs[i], recorded[i])
                 elif kind == 'clock_jump':
                     sim.clock.advance(op['dt'])
                     sim.count_fault('clock_jump')
@@ -317,6 +341,33 @@ class HistoryExec:
             'n_trials': self.n_checked,
             'sim_seconds': sim.clock.now() - 1_700_000_000.0,
         }
+
+    def reload(self, i, op):
+        """Stored results -> JSON -> a newly built simulation of the same
+        configuration (fresh code, noise, decoder objects)."""
+        import json as _json
+        from panqec.config import CODES as C, DECODERS as D
+        from panqec.error_models import PauliErrorModel
+        from panqec.simulation import DirectSimulation
+        from panqec.utils import NumpyEncoder
+        sp = self.plan['sims'][i]
+        data = _json.loads(_json.dumps(self.objs[i].get_results_to_save(),
+                                       cls=NumpyEncoder))
+        c = self.plan['codes'][sp['code']]
+        code = C[c[0]](*c[1])
+        noise = PauliErrorModel(**self.plan['noises'][sp['noise']])
+        dec = D[sp['decoder']['name']](code, noise, sp['rate'],
+                                       **sp['decoder'].get('parameters', {}))
+        rng = None
+        if op.get('new_seed') is not None:
+            rng = np.random.default_rng(op['new_seed'])
+        new = DirectSimulation(code, noise, dec, sp['rate'], rng=rng,
+                               verbose=False)
+        if data['inputs'] != _json.loads(_json.dumps(new._inputs,
+                                                     cls=NumpyEncoder)):
+            raise HarnessError('rebuilt simulation has other inputs')
+        new.load_results_from_dict(data)
+        self.objs[i] = new
 
     def check_accounting(self, i, s, total, shots):
         r = s.results
@@ -374,7 +425,10 @@ class HistoryExec:
         seams.clear_caches()
         twins = self.make_sims('twin')
         for i, sp in enumerate(plan['sims']):
-            if sp['rng_seed'] is None or totals[i] == 0:
+            if sp['rng_seed'] is None or totals[i] == 0 \
+                    or i in self.reloaded:
+                # (a reloaded simulation continues with a new generator, so
+                # it has no single-seed twin)
                 continue
             t = twins[i]
             try:
